@@ -558,6 +558,39 @@ def run_batch(mod, prop, tier, batch_seed, repo, workers, runs_override=None, wa
         print(f"VIOLATION property={prop} replay={path}", flush=True)
         violations_out.append(path)
 
+    # the same property under other PYTHONHASHSEED values (a recorded
+    # configuration: string hashing changes set/dict iteration orders)
+    if not os.environ.get("VERIF_NO_EXTRA") and plan.get("extra_hashseeds") and runs_override is None:
+        import tempfile  # pylint: disable=import-outside-toplevel
+
+        others = {}
+        for k, hs in enumerate(plan["extra_hashseeds"]):
+            with tempfile.TemporaryDirectory(prefix="verif-ev-") as tmpd:
+                env = dict(os.environ, VERIF_HASHSEED=str(hs), PYTHONHASHSEED=str(hs), VERIF_NO_EXTRA="1",
+                           VERIF_EVIDENCE_DIR=tmpd)
+                cmd = [sys.executable, os.path.join(core.VERIF_DIR, "check"), prop, "--tier", tier, "--repo", repo,
+                       "--runs", str(plan.get("extra_runs", 1000)), "--seed", str(batch_seed + 7919 * (k + 1)),
+                       "--workers", str(workers)]
+                proc = subprocess.run(cmd, capture_output=True, text=True, env=env, timeout=wall_cap + 900, check=False)
+                info = {"exit": proc.returncode}
+                try:
+                    with open(os.path.join(tmpd, f"{prop}.json")) as f:
+                        sub = json.load(f)
+                    info.update(evaluations=sub["coverage"]["evaluations"],
+                                distinct_nontrivial=sub["coverage"]["distinct_nontrivial"], seed=sub["seed"])
+                    total["evaluations"] += sub["coverage"]["evaluations"]
+                except (OSError, ValueError, KeyError):
+                    pass
+                others[str(hs)] = info
+                for line in proc.stdout.splitlines():
+                    if line.startswith(("VIOLATION", "violation:", "HARNESS-ERROR")):
+                        print(f"[PYTHONHASHSEED={hs}] {line}" if not line.startswith("VIOLATION") else line, flush=True)
+                    if line.startswith("VIOLATION"):
+                        violations_out.append(line.split("replay=", 1)[-1])
+                if proc.returncode == 2:
+                    _harness_error(f"sub-batch under PYTHONHASHSEED={hs} failed:\n{proc.stdout[-1500:]}{proc.stderr[-1500:]}")
+        extra_cov["other_pythonhashseeds"] = others
+
     wall = time.monotonic() - t0
     write_evidence(mod, prop, tier, batch_seed, total, extra_cov, wall, len(violations_out),
                    printed_known, suppressed_known, truncated, workers, runs)
